@@ -277,6 +277,10 @@ pub const MAX_POS: usize = 6;
 pub const MASK_PANICKING_MATCHER: u8 = 254;
 pub const MASK_NO_MATCHER_FN: u8 = 255;
 
+/// `answers_arc` ids in LENDING_ANSWER_ID..PANICKING_ANSWER_ID additionally lend a clone of the mock
+/// (`u.make_ref(u.clone())`).
+pub const LENDING_ANSWER_ID: u32 = 8000;
+
 /// Answer ids from this value on panic instead of answering (user panic).
 pub const PANICKING_ANSWER_ID: u32 = 9000;
 
@@ -445,8 +449,12 @@ fn static_answer(id: u32) -> &'static UAnswerFn {
 }
 
 fn arc_answer(id: u32) -> Arc<UAnswerFn> {
-    Arc::new(move |_u: &Unimock, x: u8| {
+    Arc::new(move |u: &Unimock, x: u8| {
         log(LogEv::Answer(id, x));
+        if (LENDING_ANSWER_ID..PANICKING_ANSWER_ID).contains(&id) {
+            // the answer parks a derived instance in the value chain of the instance it runs on
+            let _lent: &Unimock = u.make_ref(u.clone());
+        }
         if id >= PANICKING_ANSWER_ID {
             panic!("{}", USER_PANIC_ANSWER);
         }
@@ -560,7 +568,7 @@ fn push_single<F: UF>(f: F, entry: Entry, pos: usize, pat: &PatSpec, out: &mut D
 fn push_stub<F: UF>(f: F, first_pos: usize, pats: &[PatSpec], out: &mut DynClause) {
     let each = f.stub(|each| {
         for (i, pat) in pats.iter().enumerate() {
-            let d = start_stub(each, first_pos + i, pat.mask);
+            let d = start_stub(each, (first_pos + i) % MAX_POS, pat.mask);
             if pat.segs.is_empty() {
                 // a call pattern without any response
                 let _ = d;
@@ -573,7 +581,8 @@ fn push_stub<F: UF>(f: F, first_pos: usize, pats: &[PatSpec], out: &mut DynClaus
 }
 
 /// Translate the clause specs into one real clause. Position numbers (which select the source
-/// line of the `matching!` invocation) count the patterns of the same method, left to right.
+/// line of the `matching!` invocation) count the patterns of the same method, left to right
+/// (modulo MAX_POS: lists longer than that reuse lines, which only matters for pattern *names*).
 pub fn build_clause(clauses: &[ClauseSpec]) -> DynClause {
     let mut out = DynClause::new();
     let mut next_pos: BTreeMap<M, usize> = BTreeMap::new();
@@ -583,7 +592,7 @@ pub fn build_clause(clauses: &[ClauseSpec]) -> DynClause {
                 let pos = next_pos.entry(*m).or_insert(0);
                 let p = *pos;
                 *pos += 1;
-                crate::with_mockfn!(*m, push_single(*entry, p, pat, &mut out));
+                crate::with_mockfn!(*m, push_single(*entry, p % MAX_POS, pat, &mut out));
             }
             ClauseSpec::Stub { m, pats } => {
                 let pos = next_pos.entry(*m).or_insert(0);
